@@ -220,12 +220,15 @@ CHECKS["C01"] = dict(
          "connection Only, nothing in flight, mirror in sync) and so is every later history of operations "
          "(every_typed_history_keeps_the_connected_client_in_sync: any history of typed operations, BLOB publications included, nothing assumed "
          "about the order of messages). "
-         "PARTIAL: the system model settles after each operation; operations overlapping in time with the delivery of earlier ones, and deployments "
-         "with several drivers or clients, "
+         "Several drivers at once: a client's view of one device depends on the messages naming that device alone, in their order "
+         "(a_device_view_is_its_own_stream), so under ANY interleaving of the streams of several drivers the client ends in sync with every one "
+         "(several_drivers_at_once, System/Interleave.v). "
+         "PARTIAL: the composed system model holds one driver and one client and settles after each operation; two operations on the same "
+         "device overlapping in time with each other's delivery across the two connections, and the routing of several drivers and clients through one server, "
          "are composed in the system model and VALIDATED by running the real stack (every device state and every client view after every operation, "
          "generated definitions incl. inheritance; schedules family: connect while the device keeps changing) plus a model-free oracle, not proved. "
          "REFUTED for BLOB payloads (known finding K2).",
-    note=NOTE_BASE + "Partial: operations overlapping with the delivery of earlier ones, and several drivers/clients at once, are validated by correspondence, not proved end to end. Known findings K2 (BLOB payload after a definition) and K1-C01 (messages above the 2048-character threshold).",
+    note=NOTE_BASE + "Partial: operations on one device overlapping with each other's delivery across the two connections, and routing of several drivers/clients through one server, are validated by correspondence, not proved end to end. Known findings K2 (BLOB payload after a definition) and K1-C01 (messages above the 2048-character threshold).",
     technique="Coq proof (handshake, every operation and every history keep the mirror in sync, for every handler-free device definition) + system-level correspondence of the composed model with the real driver/router/transport/client stack",
     design="4/C01")
 CHECKS["C08"] = dict(
